@@ -1488,6 +1488,11 @@ func (in *Interp) builtin(fr *frame, b *ssa.Builtin, c *ssa.CallCommon, args []V
 			if gp.val != nil {
 				return gp.val
 			}
+			if strings.HasPrefix(gp.msg, "runtime error") || strings.HasPrefix(gp.msg, "interface conversion") ||
+				gp.msg == "close of closed channel" || gp.msg == "send on closed channel" || strings.HasPrefix(gp.msg, "assignment to entry in nil map") {
+				// run-time panics carry a runtime.Error: an error value whose text is the message
+				return in.makeErrorString(mkStr(gp.msg))
+			}
 			return Iface{T: types.Typ[types.String], V: mkStr(gp.msg)}
 		}
 		return Iface{}
